@@ -97,14 +97,13 @@ class ProjectReuseInfoOf:
         own_has_l = readable and bool(own.spdx_expressions)
         has_override = PrecedenceType.OVERRIDE in G
         return (
-            # override: REUSE.toml is the only source -- everything reported comes from the global file and the override
-            # tables are all reported (sandwich: the statement is silent about shallower aggregate/closest tables)
-            implies(has_override and has_c(ov, v0, sp0, st0), has_c(result, v0, sp0, st0))
-            and implies(has_override and has_c(result, v0, sp0, st0),
-                        has_c(ov, v0, sp0, st0) or has_c(agg, v0, sp0, st0) or has_c(clo, v0, sp0, st0))
-            and implies(has_override and has_l(ov, x0, sp0, st0), has_l(result, x0, sp0, st0))
-            and implies(has_override and has_l(result, x0, sp0, st0),
-                        has_l(ov, x0, sp0, st0) or has_l(agg, x0, sp0, st0) or has_l(clo, x0, sp0, st0))
+            # override: REUSE.toml is the only source (the file is not read).  The override tables are reported, and - as
+            # the statement says of `aggregate` (adds) and `closest` (supplies what the file lacks; an unread file lacks
+            # both) - so are the aggregate and closest tables of shallower REUSE.toml files: nothing more, nothing less
+            implies(has_override, has_c(result, v0, sp0, st0)
+                    == (has_c(ov, v0, sp0, st0) or has_c(agg, v0, sp0, st0) or has_c(clo, v0, sp0, st0)))
+            and implies(has_override, has_l(result, x0, sp0, st0)
+                        == (has_l(ov, x0, sp0, st0) or has_l(agg, x0, sp0, st0) or has_l(clo, x0, sp0, st0)))
             # otherwise: aggregate adds to the file's own; closest supplies whichever of copyright / licensing the file lacks
             and implies(not has_override,
                         has_c(result, v0, sp0, st0)
